@@ -230,11 +230,89 @@ func interfaces(sizes []int, cap int) []iface {
 			})
 		}},
 		{"Loop", func(t jid.Transformer, s []byte) ([]byte, error) { return handLoop(t, s, cap, sizes) }},
+		// round D: transform.Append into a destination that already holds bytes and has `cap`
+		// (tiny) or sizes[0]*40 (around the 128-byte growth step) bytes of spare capacity
+		{"Append", func(t jid.Transformer, s []byte) ([]byte, error) {
+			return safe(func() ([]byte, error) {
+				for _, spare := range []int{cap, sizes[0] * 40} {
+					dst := append(make([]byte, 0, 2+spare), 'd', 's')
+					out, _, err := transform.Append(t, dst, append([]byte(nil), s...))
+					if err != nil {
+						return nil, err
+					}
+					if len(out) < 2 || out[0] != 'd' || out[1] != 's' {
+						return nil, fmt.Errorf("Append lost the destination prefix: %q", out)
+					}
+					if spare == cap {
+						continue
+					}
+					return out[2:], nil
+				}
+				return nil, nil
+			})
+		}},
+		// the transformer as one stage of a transform.Chain (the chain has its own 128-byte
+		// buffers between the stages and forwards ErrShortSrc / ErrShortDst / atEOF)
+		{"ChainAfterNop", func(t jid.Transformer, s []byte) ([]byte, error) {
+			return safe(func() ([]byte, error) {
+				return io.ReadAll(transform.NewReader(&chunkReader{b: append([]byte(nil), s...), sizes: sizes}, transform.Chain(transform.Nop, t)))
+			})
+		}},
+		{"ChainBeforeNop", func(t jid.Transformer, s []byte) ([]byte, error) {
+			return safe(func() ([]byte, error) {
+				out, _, err := transform.Bytes(transform.Chain(t, transform.Nop, transform.Nop), append([]byte(nil), s...))
+				return out, err
+			})
+		}},
+		// the same value again after a stream that was abandoned in the middle of an escape
+		// sequence (short source pending, short destination pending) and a Reset
+		{"Reuse", func(t jid.Transformer, s []byte) ([]byte, error) {
+			return safe(func() ([]byte, error) {
+				_, _, _ = t.Transform(make([]byte, 4), []byte(`x\2`), false)
+				_, _, _ = t.Transform(make([]byte, 2), []byte(`ab c@d\20`), false)
+				_, _ = t.Span([]byte(`q\`), false)
+				t.Reset()
+				return handLoop(t, s, cap+1, sizes)
+			})
+		}},
 	}
+}
+
+// chainRoundTrip: transform.Chain(Escape, Unescape) is the identity as a stream, for
+// every chunking of the source (theorem C16_chain_roundtrip).
+func (c *ctx) chainRoundTrip(s []byte, sizes []int) {
+	r := c.r
+	hs := common.Hex(s)
+	for _, how := range []string{"Reader", "Bytes"} {
+		out, err := safe(func() ([]byte, error) {
+			ch := transform.Chain(jid.Escape, jid.Unescape)
+			if how == "Bytes" {
+				o, _, err := transform.Bytes(ch, append([]byte(nil), s...))
+				return o, err
+			}
+			return io.ReadAll(transform.NewReader(&chunkReader{b: append([]byte(nil), s...), sizes: sizes}, ch))
+		})
+		// correspondence: the model's unescape (escape s)
+		r.Line("chain "+hs, obsBytes(out, err))
+		if err != nil || !bytes.Equal(out, s) {
+			r.Fail("roundtrip", "chain/"+how, []string{r.Prop + " chain " + hs, fmt.Sprintf("#iface=Chain(Escape,Unescape) via %s sizes=%v", how, sizes)},
+				fmt.Sprintf("Chain(Escape, Unescape)(%q) = %q (%v)", clipB(s), clipB(out), err))
+		}
+	}
+}
+
+func clipB(b []byte) []byte {
+	if len(b) > 120 {
+		return append(append(append([]byte(nil), b[:50]...), "..."...), b[len(b)-50:]...)
+	}
+	return b
 }
 
 type ctx struct {
 	r *common.Run
+	// basicOnly: skip the round-D interfaces (Append, Chain*, Reuse, chain round trip); set for the
+	// repeated chunkings of the exhaustive enumeration, where the first chunking already ran them
+	basicOnly bool
 }
 
 func obsBytes(b []byte, err error) string {
@@ -261,6 +339,9 @@ func (c *ctx) whole(s []byte, sizes []int, cap int, class string) {
 	}{{"estr", jid.Escape, refEscape}, {"ustr", jid.Unescape, refUnescape}} {
 		var first []byte
 		for k, it := range interfaces(sizes, cap) {
+			if c.basicOnly && k >= 5 {
+				break
+			}
 			out, err := it.f(tr.t, s)
 			line := tr.op + " " + hs
 			r.Line(line, obsBytes(out, err))
@@ -284,6 +365,9 @@ func (c *ctx) whole(s []byte, sizes []int, cap int, class string) {
 					fmt.Sprintf("%s gives %q, String gives %q", it.name, out, first))
 			}
 		}
+	}
+	if !c.basicOnly {
+		c.chainRoundTrip(s, sizes)
 	}
 	// round trip and cleanliness on the real code
 	e, err := safe(func() ([]byte, error) { return []byte(jid.Escape.String(string(s))), nil })
@@ -396,13 +480,13 @@ func Run(r *common.Run) error {
 			if len(f) < 3 || f[0] != "C16" {
 				continue
 			}
-			if k := map[string]int{"estr": 2, "ustr": 2, "espan": 2, "uspan": 2, "estep": 3, "ustep": 3}[f[1]]; k > 0 && k < len(f) {
+			if k := map[string]int{"estr": 2, "ustr": 2, "chain": 2, "espan": 2, "uspan": 2, "estep": 3, "ustep": 3}[f[1]]; k > 0 && k < len(f) {
 				if b, err := common.UnHex(f[k]); err == nil && len(replayInputs) < 16 {
 					replayInputs = append(replayInputs, b)
 				}
 			}
 			switch f[1] {
-			case "estr", "ustr":
+			case "estr", "ustr", "chain":
 				s, _ := common.UnHex(f[2])
 				for _, sz := range [][]int{{1}, {2}, {3}, {1, 2}, {7}} {
 					for _, cap := range []int{3, 4, 5} {
@@ -475,9 +559,11 @@ func Run(r *common.Run) error {
 			if n <= r.Pick(4, 5) {
 				c.steps(s, []int{0, 1, 2, 3, 4, 5, 7})
 			}
-			for _, sz := range [][]int{{1}, {2}, {3}, {1, 2}} {
+			for k, sz := range [][]int{{1}, {2}, {3}, {1, 2}} {
+				c.basicOnly = k > 0 && k != n%4
 				c.whole(s, sz, 3+len(sz), "exhaustive")
 			}
+			c.basicOnly = false
 		})
 	}
 	r.Exhaustive = append(r.Exhaustive, fmt.Sprintf("all strings of length <= %d over %q x caps x atEOF x interfaces", maxLen, alphabet))
